@@ -9,7 +9,7 @@ Extraction "checked.ml"
   assign_int_int classify_int
   neg_int abs_int add_int sub_int mul_int div_int idiv_int rem_int add_mul_int sub_mul_int
   add_2exp_int sub_2exp_int mul_2exp_int div_2exp_int smod_2exp_int umod_2exp_int sqrt_int gcd_int lcm_int lcm_int_native cmp_int
-  assign_ext neg_ext abs_ext add_ext sub_ext mul_ext div_ext idiv_ext rem_ext add_mul_ext sub_mul_ext
+  assign_ext neg_ext abs_ext add_ext sub_ext mul_ext div_ext idiv_ext rem_ext add_mul_ext sub_mul_ext add_mul_ext_nat sub_mul_ext_nat
   add_2exp_ext sub_2exp_ext mul_2exp_ext div_2exp_ext smod_2exp_ext umod_2exp_ext sqrt_ext gcd_ext lcm_ext cmp_ext
   handle eval_checked eval_Z.
 Cd "../../coq".
